@@ -719,6 +719,7 @@ type zvsLane struct {
 	reply                     [][]byte
 	hits                      []*zvsHit
 	cancelMid                 context.CancelFunc
+	epoch                     int
 	accepted, closed, running int
 	open                      map[*zvsConn]struct{}
 	bufl                      [zvsMaxPos + 1]*bufconn.Listener
@@ -973,7 +974,13 @@ func (l *zvsLane) close() {
 	}
 }
 
-func (l *zvsLane) dial(ctx context.Context, addr string) (net.Conn, error) {
+func (l *zvsLane) dial(ctx context.Context, addr string, epoch int) (net.Conn, error) {
+	l.mu.Lock()
+	stale := epoch != l.epoch
+	l.mu.Unlock()
+	if stale { // a connection attempt made in the background for the Signer of an earlier case: not part of this case
+		return nil, fmt.Errorf("verif: the case this dial belongs to is over")
+	}
 	host, _, err := net.SplitHostPort(addr)
 	if err != nil {
 		return nil, err
@@ -1046,6 +1053,11 @@ func (l *zvsLane) run(c *zvsCase, base *zvsBase, r *mrand.Rand, tryMs int) []int
 			c.Info.Via = "tls"
 		}
 	}
+	l.mu.Lock()
+	l.epoch++
+	epoch := l.epoch
+	l.mu.Unlock()
+	caseDial := func(ctx context.Context, addr string) (net.Conn, error) { return l.dial(ctx, addr, epoch) }
 	out := []interface{}{}
 	step := func(e map[string]interface{}) { out = append(out, zvsStep{Ev: "step", Tid: c.Tid, E: e}) }
 
@@ -1167,7 +1179,7 @@ func (l *zvsLane) run(c *zvsCase, base *zvsBase, r *mrand.Rand, tryMs int) []int
 			for m := range eps {
 				eps[m] = names[m] + ":4443"
 			}
-			s = &Signer{endpoints: eps, dialOptions: []grpc.DialOption{grpc.WithTransportCredentials(insecure.NewCredentials()), grpc.WithContextDialer(l.dial)}}
+			s = &Signer{endpoints: eps, dialOptions: []grpc.DialOption{grpc.WithTransportCredentials(insecure.NewCredentials()), grpc.WithContextDialer(caseDial)}}
 			break
 		}
 		// the real constructor (so that whatever state a Signer carries is set up by the code itself); only the transport
@@ -1196,7 +1208,7 @@ func (l *zvsLane) run(c *zvsCase, base *zvsBase, r *mrand.Rand, tryMs int) []int
 			s = nil
 			break
 		}
-		s.dialOptions = append(append([]grpc.DialOption{}, s.dialOptions...), grpc.WithTransportCredentials(insecure.NewCredentials()), grpc.WithContextDialer(l.dial))
+		s.dialOptions = append(append([]grpc.DialOption{}, s.dialOptions...), grpc.WithTransportCredentials(insecure.NewCredentials()), grpc.WithContextDialer(caseDial))
 	}
 	res := zvsReset{Ev: "reset", Tid: c.Tid, Eps: c.Eps, Bundle: zvsBundle{Cas: zvsNorm(c.Bundle.Cas), Lay: c.Bundle.Lay}, Ctx: c.Ctx, Req: c.Req, Tries: c.Tries, Hist: c.Hist, Info: c.Info}
 	if s != nil {
